@@ -126,8 +126,14 @@ func zzOmittedPeer(w *zzWorld, np *netv1.NetworkPolicy, pr *netv1.NetworkPolicyP
 }
 
 // C06 + C07 on one protected workload
-func ZZ_C06_C07_Exposure() {
-	g := zzBaseWorld(true, vf_Choose("nsObjs", 2) == 1)
+func ZZ_C06_C07_Exposure() { zzC0607Exposure(false) }
+
+// two rules in one policy: an entire-cluster rule next to a selector rule, each with its own port shape (numbers or
+// one of two port names): the entry of the selector rule may be dropped only when the entire-cluster entry covers it
+func ZZ_C06_C07_TwoRules() { zzC0607Exposure(true) }
+
+func zzC0607Exposure(twoRules bool) {
+	g := zzBaseWorld(true, twoRules || vf_Choose("nsObjs", 2) == 1)
 	g.ConcreteIP = true
 	ing := vf_Choose("dir", 2) == 0
 	np := zzNetpolObj("ns1", "np1", netv1.NetworkPolicySpec{PodSelector: metav1.LabelSelector{MatchLabels: map[string]string{"app": "a"}}}).NetworkPolicy
@@ -135,10 +141,25 @@ func ZZ_C06_C07_Exposure() {
 	if vf_Tier() > 0 {
 		nRules = 1 + vf_Choose("nrules", 2)
 	}
+	if twoRules {
+		nRules = 2
+	}
 	for r := 0; r < nRules; r++ {
 		rn := []string{"r0", "r1"}[r]
-		peers := zzExpPeers(g, vf_Choose(rn+".peers", zzNExpPeers))
-		ports := zzPortsMenu(rn, vf_Choose(rn+".ports", 4))
+		var peers []netv1.NetworkPolicyPeer
+		var ports []netv1.NetworkPolicyPort
+		if twoRules {
+			if r == 0 {
+				peers = zzExpPeers(g, 4)
+				ports = zzPortsMenu(rn, []int{1, 3, 5}[vf_Choose(rn+".ports", 3)])
+			} else {
+				peers = zzExpPeers(g, 2+vf_Choose(rn+".peers", 2))
+				ports = zzPortsMenu(rn, []int{0, 1, 3, 5}[vf_Choose(rn+".ports", 4)])
+			}
+		} else {
+			peers = zzExpPeers(g, vf_Choose(rn+".peers", zzNExpPeers))
+			ports = zzPortsMenu(rn, vf_Choose(rn+".ports", 4))
+		}
 		if ing {
 			np.Spec.Ingress = append(np.Spec.Ingress, netv1.NetworkPolicyIngressRule{From: peers, Ports: ports})
 		} else {
